@@ -907,6 +907,7 @@ package priority
 
 
 //@ event recv done ()
+//@ event close done
 
 // The simplified discipline's constructor: the inner discipline gets exactly HandlersQuantity slots
 // (as many as handlers are started), and delivers to / is released through the channels the
